@@ -32,13 +32,11 @@ def judge_file(before: bytes | None, after: bytes | None, diffs: list[str]):
         bt, at = before.decode("utf-8"), after.decode("utf-8")
     except UnicodeDecodeError:
         return out
-    try:
-        got = udiff.fold(diffs, bt)
-    except udiff.DiffError as e:
-        return out + [("diff-does-not-apply", f"reported diff does not apply to the content before the run: {e}")]
-    if not udiff.equal_mod_final_newline(got, at):
-        n = next((i for i, (x, y) in enumerate(zip(got, at)) if x != y), min(len(got), len(at)))
-        return out + [("diff-result-differs", f"applying the reported diff(s) gives different content than found on disk (first difference at char {n}: {got[max(0, n - 20):n + 20]!r} vs {at[max(0, n - 20):n + 20]!r})")]
+    ok, err = udiff.reproduces(diffs, bt, at)
+    if not ok:
+        kind, detail = err
+        text = "reported diff does not apply to the content before the run" if kind == "diff-does-not-apply" else "applying the reported diff(s) gives different content than found on disk"
+        out.append((kind, f"{text}: {detail}"))
     return out
 
 
